@@ -30,11 +30,13 @@ for i in range(1, 21):
     if not os.path.exists(pf):
         srows.append("| %s | - | | | | |" % pid)
         continue
-    src = re.sub(r"\(\*.*?\*\)", "", open(pf).read(), flags=re.S)
+    src = "\n".join(re.sub(r"\(\*.*?\*\)", "", open(f).read(), flags=re.S)
+                    for f in sorted(glob.glob(os.path.join(ROOT, "coq", "props", pid + "*.v"))))
     thms = re.findall(r"^(?:Theorem|Lemma)\s+(\w+)", src, re.M)
     partial = [t for t in thms if "partial" in t]
     hist = [t for t in thms if "refuted" in t or "historical" in t.lower() or "_v0_" in t or "witness" in t]
-    openl = re.findall(r"^Definition\s+(\w+_full)\b", src, re.M)
+    openl = [d for d in re.findall(r"^Definition\s+(\w+_full)\b", src, re.M)
+             if not re.search(r":\s*%s\s*\." % d, src)]   # a _full Definition that some Theorem proves is not open
     ev = os.path.join(ROOT, "evidence", pid + ".json")
     cs = ""
     if os.path.exists(ev):
